@@ -107,12 +107,14 @@ pub fn run(tier: Tier) -> i32 {
     });
     let n_sharing = sharing(&rep, &scratch, tier, &keys_total);
     rep.count("sharing_projects", n_sharing);
+    let n_groups = group_states(&rep, &scratch, &keys_total);
+    rep.count("group_state_projects", n_groups);
     rep.nontriv(strings.len() as u64);
     rep.count("single_scalar_strings", n_single as u64);
     rep.sample(json!({"strings": strings.iter().skip(0x20).take(4).collect::<Vec<_>>()}));
     rep.sample(json!({"strings": strings.iter().skip(n_single).take(4).map(|s| s.escape_unicode().to_string()).collect::<Vec<_>>()}));
     let mut cov = serde_json::Map::new();
-    cov.insert("rule".into(), json!(format!("every Unicode scalar value as a one-character translation (quick: all below U+3000, every 7th above, surrogate-gap and plane-16 edges; thorough: all 1 112 064), all 196 two-character strings over {:?} and 14 four-character mixes, {chunk} per project; plus every assignment of {{3 shared strings, an interpolation built from two of them, null}} to 2 keys (one nested) in 3 locales (thorough: 4), with and without an inherits entry, with one or two namespaces (the same literal in several locales, in several keys, across namespaces); layouts: two locales (reversed assignment, explicit nulls, interpolations repeating the string) and nested subkeys + two namespaces + a cross-namespace foreign key duplicating strings; JSON build also writes every non-ASCII char as \\\\uXXXX escapes (surrogate pairs); oracle: every Literal::String(s,i) reachable from a locale's keys has i < strings.len() and strings[i]==s, top_locale_string_count==strings.len() in the top locale and every nested sub-locale, table of en == the literal set, rendered text == source", NASTY.iter().map(|c| c.escape_unicode().to_string()).collect::<Vec<_>>())));
+    cov.insert("rule".into(), json!(format!("every Unicode scalar value as a one-character translation (quick: all below U+3000, every 7th above, surrogate-gap and plane-16 edges; thorough: all 1 112 064), all 196 two-character strings over {:?} and 14 four-character mixes, {chunk} per project; plus every assignment of {{3 shared strings, an interpolation built from two of them, null}} to 2 keys (one nested) in 3 locales (thorough: 4), with and without an inherits entry, with one or two namespaces (the same literal in several locales, in several keys, across namespaces); every combination, over 4 locales, of a subkey group being written / written with other texts / null / absent per non-default locale x a table-size difference per locale x an inherits entry (sizes recorded for nested sub-locales must follow the locale they belong to); layouts: two locales (reversed assignment, explicit nulls, interpolations repeating the string) and nested subkeys + two namespaces + a cross-namespace foreign key duplicating strings; JSON build also writes every non-ASCII char as \\\\uXXXX escapes (surrogate pairs); oracle: every Literal::String(s,i) reachable from a locale's keys has i < strings.len() and strings[i]==s, top_locale_string_count==strings.len() in the top locale and every nested sub-locale, table of en == the literal set, rendered text == source", NASTY.iter().map(|c| c.escape_unicode().to_string()).collect::<Vec<_>>())));
     cov.insert("exhaustive".into(), json!(tier == Tier::Thorough));
     cov.insert("front_end".into(), json!(build_format().name()));
     cov.insert("key_locale_comparisons".into(), json!(*keys_total.lock().unwrap()));
@@ -188,6 +190,54 @@ fn sharing(rep: &Reporter, scratch: &Scratch, tier: Tier, keys_total: &Mutex<u64
             let (e, _o) = check_project_opts(rep, "C11", "sharing", &p, &scratch.worker(w), keys_total, co);
             if e != Expect::Accept {
                 vmodel::report::machinery_fail(&format!("C11 sharing project not acceptable to the model: {e:?} {}", p.describe()));
+            }
+            rep.eval(1);
+            *total.lock().unwrap() += 1;
+        });
+    }
+    let n = *total.lock().unwrap();
+    n
+}
+
+
+/// A subkey group that is written, null or absent per locale, in locales whose tables have different sizes: the
+/// string count recorded inside the group for every locale must be the size of THAT locale's table.
+fn group_states(rep: &Reporter, scratch: &Scratch, keys_total: &Mutex<u64>) -> u64 {
+    let locs = ["en", "fr", "de", "it"];
+    // per non-default locale: group state (4) x how many extra strings its table holds (2)
+    let combos = vmodel::enumerate::tuples(8, 3);
+    let total = Mutex::new(0u64);
+    for inh in 0..3 {
+        par_for(combos.len(), |w, i| {
+            let t = &combos[i];
+            let mut cfg = Config::simple("en", &locs);
+            match inh {
+                1 => cfg = cfg.with_inherits(&[("it", "fr")]),
+                2 => cfg = cfg.with_inherits(&[("de", "it"), ("fr", "de")]),
+                _ => {}
+            }
+            let mut p = Project::new(cfg);
+            let group = |l: &str, alt: bool| Val::Sub(vec![("x".to_string(), st(&format!("[{l}.g.x{}]", if alt { "'" } else { "" }))), ("h".to_string(), Val::Sub(vec![("z".to_string(), s(vec![text(&format!("[{l}.g.h.z]")), var("v"), text("tail")]))]))]);
+            p.set_file(None, "en", vec![("k".to_string(), st("[en.k]")), ("g".to_string(), group("en", false))]);
+            for (li, l) in locs.iter().enumerate().skip(1) {
+                let d = t[li - 1];
+                let mut e = vec![("k".to_string(), st(&format!("[{l}.k]")))];
+                match d % 4 {
+                    0 => e.push(("g".to_string(), group(l, false))),
+                    1 => e.push(("g".to_string(), group(l, true))),
+                    2 => e.push(("g".to_string(), Val::Null)),
+                    _ => {}
+                }
+                if d / 4 == 1 {
+                    // a bigger table for this locale
+                    e.push(("k2".to_string(), s(vec![text(&format!("[{l}.k2.a]")), var("v"), text(&format!("[{l}.k2.b]"))])));
+                }
+                p.set_file(None, l, e);
+            }
+            let co = CheckOpts { counts: None, write: WriteOpts { format: build_format(), ascii_only: false } };
+            let (e, _o) = check_project_opts(rep, "C11", "group-states", &p, &scratch.worker(w), keys_total, co);
+            if e != Expect::Accept {
+                vmodel::report::machinery_fail(&format!("C11 group-state project not acceptable to the model: {e:?} {}", p.describe()));
             }
             rep.eval(1);
             *total.lock().unwrap() += 1;
